@@ -108,10 +108,12 @@ func (pt *InPort) Recv() *FileIP {
 // CloseConnection closes the connection to the remote out-port with name
 // rptName, on the InPort
 func (pt *InPort) CloseConnection(rptName string) {
+	verifPoint("port.close", pt.name, 0)
 	pt.closeLock.Lock()
 	delete(pt.RemotePorts, rptName)
 	if len(pt.RemotePorts) == 0 {
 		close(pt.Chan)
+		verifPoint("inport.chan_closed", pt.name, 0)
 	}
 	pt.closeLock.Unlock()
 }
@@ -215,6 +217,7 @@ func (pt *OutPort) Ready() bool {
 func (pt *OutPort) Send(ip *FileIP) {
 	for _, rpt := range pt.RemotePorts {
 		Debug.Printf("Sending on out-port (%s) connected to in-port (%s)", pt.Name(), rpt.Name())
+		verifPoint("port.send", pt.name, 0)
 		rpt.Send(ip)
 	}
 }
@@ -353,10 +356,12 @@ func (pip *InParamPort) Recv() string {
 // CloseConnection closes the connection to the remote out-port with name
 // popName, on the InParamPort
 func (pip *InParamPort) CloseConnection(popName string) {
+	verifPoint("port.close", pip.name, 1)
 	pip.closeLock.Lock()
 	delete(pip.RemotePorts, popName)
 	if len(pip.RemotePorts) == 0 {
 		close(pip.Chan)
+		verifPoint("inport.chan_closed", pip.name, 1)
 	}
 	pip.closeLock.Unlock()
 }
@@ -453,6 +458,7 @@ func (pop *OutParamPort) Ready() bool {
 func (pop *OutParamPort) Send(param string) {
 	for _, pip := range pop.RemotePorts {
 		Debug.Printf("Sending on out-param-port (%s) connected to in-param-port (%s)", pop.Name(), pip.Name())
+		verifPoint("port.send", pop.name, 1)
 		pip.Send(param)
 	}
 }
